@@ -593,6 +593,7 @@ func TestC17_graphs(t *testing.T) {
 	prop := propC17(col)
 	if ev.Replaying() {
 		if leg := ev.ReplayLeg(); leg != "" && leg != t.Name() {
+			completed = true
 			t.Skip("replay file is for another leg")
 		}
 		ev.HandleReplay(t, col, prop)
@@ -749,6 +750,7 @@ func TestC17_escape(t *testing.T) {
 	defer func() { col.Flush(completed) }()
 	if ev.Replaying() {
 		if leg := ev.ReplayLeg(); leg != t.Name() {
+			completed = true
 			t.Skip("replay file is for another leg")
 		}
 		ev.HandleReplay(t, col, propC17(col))
